@@ -4,17 +4,17 @@ from ..runner import Harness
 from ..pse import truth
 from . import common as cm
 
-LAYOUTS = [[], ["R/A/AA"], ["R/A/AA", "R/AB"], ["R/A/AA/AAA", "R/A/AA"], ["R/A", "R/A/AA", "R/A/AA/AAA"]]
+LAYOUTS = [[], ["R/A/AA"], ["R/A/AA", "R/AB"], ["R/A/AA/AAA", "R/A/AA"], ["R/.backup/H", "R/A/AA"], ["R/A", "R/A/AA", "R/A/AA/AAA"]]
 EDITS = {1: "newline appended", 2: "bit flipped", 3: "CR inserted before a LF", 4: "last byte truncated", 5: "converted to CRLF",
          6: "blank inserted", 7: "comment appended"}
 COMMANDS = ["create", "create-sf", "verify", "verify-sf", "verify-dh", "diff", "info", "info-sf", "flatten"]
 
 
 def build(b, sym, tier):
-    files = {"R/s.txt": 1, "R/A/a1.txt": 2, "R/A/AA/aa1.txt": 3, "R/A/AA/AAA/aaa1.txt": 4, "R/AB/ab1.txt": 5}
+    files = {"R/s.txt": 1, "R/A/a1.txt": 2, "R/A/AA/aa1.txt": 3, "R/A/AA/AAA/aaa1.txt": 4, "R/AB/ab1.txt": 5, "R/.backup/H/h.txt": 6}
     for f, c in files.items():
         b.mkfile(f, c)
-    layout = sym.choose("layout", LAYOUTS if tier != "quick" else LAYOUTS[:4])
+    layout = sym.choose("layout", LAYOUTS if tier != "quick" else LAYOUTS[:5])
     for c in layout:
         r = b.run("create", root=c, h=["md5"])
         b.require(r.exit == 0, "setup-create", "%s %s" % (c, r))
